@@ -88,9 +88,11 @@ impl SerdeParser {
 
             // Check if this is followed by "_all"
             let after_rename = &tokens[abs_pos + 6..];
-            if after_rename.trim_start().starts_with("_all") {
-                // This is rename_all, skip it
-                search_start = abs_pos + 10; // Move past "rename_all"
+            let trimmed = after_rename.trim_start();
+            if trimmed.starts_with("_all") {
+                // This is rename_all, skip it (the "_all" may follow after whitespace of any
+                // byte width, so the offset is computed rather than assumed to be 10)
+                search_start = abs_pos + 6 + (after_rename.len() - trimmed.len()) + 4;
                 continue;
             }
 
